@@ -324,6 +324,11 @@ def _exec_post(args):
 
             # phase 1: pool = antecedents x consequents
             ants = [M.TOP] + [a for _, a in rng.sample(base, min(len(base), 4))] + [_lit(usesig, rng) for _ in range(2)]
+            # exceptional antecedents: conjunctions of base antecedents/consequents and the joint falsification of two conditionals
+            # (the worlds where ties between layers have to be followed)
+            for _ in range(3):
+                (b1, a1), (b2, a2) = rng.choice(base), rng.choice(base)
+                ants.append(rng.choice([M.And(a1, b2), M.And(a1, M.Not(b1)), M.Or(M.And(a1, M.Not(b1)), M.And(a2, M.Not(b2))), M.And(a1, a2)]))
             cons = [b for b, _ in rng.sample(base, min(len(base), 4))] + [_lit(usesig, rng) for _ in range(4)]
             pool = [(c, a) for a in ants for c in cons]
             pans = ask(pool)
